@@ -67,4 +67,39 @@ PROPS = {
              'parameters random, scenario); distinct = hash(LP signature x configuration x scenario)',
         assumptions=COMMON_ASSUME,
     ),
+    'C16': dict(
+        level='fault_enumeration',
+        level_text='For each seeded (LP, configuration) the uninterrupted solve is recorded (N iterations) and then EVERY stop point k=0..N '
+                   '(all when N+1 <= 24 quick / 150 thorough, else a stratified sample incl. 0,1,N-1,N) is enumerated twice: iteration limit k, '
+                   'and the interrupt flag raised when the solver\'s own per-iteration log reports iteration k; plus time limit zero/tiny with '
+                   'both clocks and six objective limits on both sides of the optimum. Each stop is judged for honest status, iteration '
+                   'count <= limit, valid basis (exact regularity) and resumption to the uninterrupted status and value.',
+        level_note='stop/resume equivalence only on instances whose class is certified and tolerance-robust; time-limit stops use real clocks '
+                   '(limit 0 / 1e-9), the deterministic virtual-clock hook of the design was not built; exact-solve limits are covered in C03/C16 notes',
+        technique='fault enumeration over stop points of real executions: iteration limit and log-driven interrupt injection, basis/status/resume oracles under ASan+UBSan',
+        stages=two_flavour('h_solve', 60, 240, 1500, 6000),
+        minima=lambda t: {'c16.stop_points': 2000, 'c16.iterlimit.stopped_inside_solve': 300, 'c16.interrupt.stopped_inside_solve': 200,
+                          'c16.iterlimit.resumed': 500, 'c16.interrupt.resumed': 500, 'c16.basis_after_stop_checked': 500},
+        eval_counter='c16.stop_points', distinct_set='stoppoints',
+        rule='case -> (LP family, seeded LP, algorithm=(k/6)%2, representation=1+(k/12)%2, simplifier=(k/24)%2, other parameters random); '
+             'evaluations = stop points executed; distinct = hash(mode, k, LP signature) of stops on instances with certified class',
+        assumptions=COMMON_ASSUME,
+    ),
+    'C17': dict(
+        level='exploration',
+        level_text='Seeded histories compare (a) twin objects, (b) the same object re-solved after clearBasis(), bit for bit (status, iteration '
+                   'count, basis, all solution vectors), and (c) copy-constructed / assigned objects taken at five kinds of history points: '
+                   'equality of LP, all parameters, observable tolerances, basis, status and solution, identical re-solves, and independence in '
+                   'both directions under modifications, parameter changes, solves and destruction of the other object (ASan watches dangling '
+                   'pointers). Sampling of inputs x configurations x history points.',
+        level_note='floating-point mode; exact-mode copies are exercised in the C03/C07 harness; cross-process comparison not built',
+        technique='runtime monitoring: bitwise snapshot comparison of twin/copy objects over seeded API histories under ASan+UBSan',
+        stages=two_flavour('h_solve', 1200, 5000, 25000, 80000),
+        minima=lambda t: {'c17.twin_solves': 200, 'c17.resolve_after_clearBasis': 150, 'c17.copy_resolve_compared': 150,
+                          'c17.independence_next_solve_compared': 200},
+        eval_counter='cases', distinct_set='nontrivial',
+        rule='case k -> (LP family, seeded LP, configuration, scenario: twins / re-solve / copy at point p by ctor or assignment, victim and '
+             'hammer sequence); distinct = hash(LP signature x configuration x scenario seed)',
+        assumptions=COMMON_ASSUME,
+    ),
 }
